@@ -413,7 +413,36 @@ func allDocs() []doc {
 		docs = append(docs, mixedDoc(12+seed, seed)) // ~1.5-2.5 KB: spans 2-3 buffers
 	}
 	docs = append(docs, mixedDoc(40, 3))
-	return docs
+	return append(docs, longTokenDocs()...)
+}
+
+// longTokenDocs: single tokens (and comments / whitespace runs) longer than the 1024-byte
+// buffer, so that one token spans two, three or four refills, followed by further policies
+// whose positions depend on the bookkeeping across those refills.
+func longTokenDocs() []doc {
+	var out []doc
+	mk := func(name, before, tok, after string) {
+		b := newBuilder()
+		b.policy("permit(principal, action, resource);")
+		b.add("\n")
+		b.policy(before + tok + after)
+		b.add(" // é\n")
+		b.policy(policies[1])
+		b.add("\n")
+		b.policy(policies[3])
+		out = append(out, b.doc(name))
+	}
+	for _, n := range []int{1000, 1023, 1024, 1025, 2047, 2048, 2049, 3100} {
+		mk(fmt.Sprintf("long-string-%d", n), `permit(principal, action, resource) when { "`, strings.Repeat("a", n), `" == context.a };`)
+	}
+	mk("long-string-3byte-2100", `permit(principal, action, resource) when { "`, strings.Repeat("✓", 700), `" == context.a };`)
+	mk("long-string-escapes-1500", `permit(principal, action, resource) when { "`, strings.Repeat(`\n\u{1F600}x`, 150), `" == context.a };`)
+	mk("long-identifier-1100", `permit(principal, action, resource) when { context.`, strings.Repeat("k", 1100), ` == 1 };`)
+	mk("long-identifier-2100", `permit(principal, action, resource) when { context has `, strings.Repeat("Z", 2100), ` };`)
+	mk("long-line-comment-2500", `permit(principal, action, resource) `, "// "+strings.Repeat("é", 1250)+"\n", `when { true };`)
+	mk("long-block-comment-2500", `permit(principal, action, resource) `, "/* "+strings.Repeat("x\n", 1250)+" */", `when { true };`)
+	mk("long-whitespace-3000", `permit(principal, action, resource)`, strings.Repeat(" \t\r\n", 750), `when { true };`)
+	return out
 }
 
 func Check() *core.Check {
@@ -421,7 +450,7 @@ func Check() *core.Check {
 		ID:        "C18",
 		HangAfter: 120 * time.Second, // cases take at most seconds (max_case_s in the evidence); see core.Family.HangAfter
 		Title:     "Streaming decode is chunking-invariant and source positions are exact",
-		Rule: "deviation-bounded exploration of reader schedules (each Read may return the full request, 1, 2, 3, len-1 or 0 bytes, or data together with io.EOF) on documents built with known offsets (every token kind straddling the 1024-byte buffer edge at every alignment, multi-byte characters, CR/LF mixes, comments), plus every uniform chunk size 1..1030 and a reader failure at every byte offset; oracle: the whole-slice parse (policies, positions, error-ness) and the positions computed from the construction of the document; " +
+		Rule: "deviation-bounded exploration of reader schedules (each Read may return the full request, 1, 2, 3, len-1 or 0 bytes, or data together with io.EOF) on documents built with known offsets (every token kind straddling the 1024-byte buffer edge at every alignment, single tokens / comments / whitespace runs of 1000..3100 bytes spanning up to four refills, multi-byte characters, CR/LF mixes, comments), plus every uniform chunk size 1..1030 and a reader failure at every byte offset; oracle: the whole-slice parse (policies, positions, error-ness) and the positions computed from the construction of the document; " +
 			"a case is non-trivial if the document parses to at least one policy or exercises an error path",
 		Assumptions: []string{"a reader never returns 0 bytes twice in a row (a reader that returns (0, nil) forever violates io.Reader's contract)", "for documents that do not parse only error-ness and the error text are compared"},
 		Families: func(tier string) []*core.Family {
